@@ -119,6 +119,22 @@ func runTunnels(prop string) {
 	for i := 0; i < k; i++ {
 		ts.Add(drawTunnel(m, collisionFree, maxBytes))
 	}
+	if (prop == "C16" || prop == "C07") && collisionFree && simrt.Chance(1, 8, "stall-scenario") {
+		// a slow reader on one tunnel while a sibling on the same connections
+		// moves more frames than any per-connection queue holds
+		slow := drawTunnel(m, true, maxBytes)
+		slow.Down, slow.Up = 1_200_000, 10
+		slow.WriteSizes = []int{10}
+		slow.SlowStart = time.Duration(2+simrt.Choose(12, "slowfor")) * time.Second
+		slow.ClientClose, slow.ServerClose = "closewrite-then-read", "after-eof"
+		ts.Add(slow)
+		big := drawTunnel(m, true, maxBytes)
+		big.Down, big.Up = 6_000_000, 100
+		big.WriteSizes = []int{100}
+		big.ClientClose, big.ServerClose = "closewrite-then-read", "after-eof"
+		ts.Add(big)
+		simrt.Probe("stall_scenario")
+	}
 	if prop == "C04" || prop == "C07" {
 		m.Tap.OnFrame = append(m.Tap.OnFrame, ts.inspectData)
 	}
